@@ -1,12 +1,13 @@
 """C03 - no input makes a public entry point panic, overflow or hang.
 
 Every run REGENERATES coq/Gen/PanicSites.v from /repo/src (gen/gen_panics.py): the inventory of the potential
-panic sites of the parse path (panic!/unreachable!/assert*!/debug_assert*!, .unwrap(), .expect(..), index and
-slice expressions, std calls that panic on a bad argument, compound integer updates and subtractions), pinned by
-the obligation C03_panic_inventory and keyed to the table of Model/PanicMap.v (C03_panic_table_covers,
-C03_table_sites_exist, C03_model_sites_accounted).  A site that is added, removed or edited breaks the
-obligations (the build of Properties/C03.vo fails) and is reported with file, fn and text; moving code, comments
-and message wording do not."""
+panic sites of the parse path.  Pinned by the obligation C03_panic_inventory is [panic_keys]: per (file, fn) the
+number of panic!/unreachable!/assert*!/debug_assert*! invocations by macro name, of .unwrap() / .expect(..) and of
+std calls that panic on a bad argument by callee, without expression text; keyed to the table of Model/PanicMap.v
+(C03_panic_table_covers, C03_table_sites_exist, C03_model_sites_accounted).  A strong site that is added or
+removed breaks the obligations (the build of Properties/C03.vo fails) and is reported with file, fn and the sites
+of the group; moving code, comments, message wording and rewritten expressions do not.  Index expressions and
+integer arithmetic are listed for information only ([sites]) and not pinned."""
 import os
 import random
 import sys
@@ -24,9 +25,11 @@ PID = "C03"
 def inventory():
     """regenerate Gen/PanicSites.v; -> (stats, disagreements in the format of common.decide)"""
     inv = gen_panics.regenerate()
-    expected = gen_panics.expected_sites()
+    expected = gen_panics.expected_keys()
     new, gone = gen_panics.diff(inv["items"], expected)
-    st = {"sites": len(inv["items"]), "expected": None if expected is None else len(expected),
+    keys = gen_panics.panic_keys(inv["items"])
+    st = {"sites": len(inv["items"]), "pinned_groups": len(keys), "pinned_sites": sum(k[3] for k in keys),
+          "expected": None if expected is None else len(expected),
           "file_rewritten": inv["changed"], "new": new, "gone": gone,
           "by_kind": {k: sum(1 for it in inv["items"] if it["kind"] == k) for k in gen_panics.KINDS},
           "model_sites": len(gen_panics.model_sites()),
@@ -109,11 +112,12 @@ def run(rep, tier, seed):
     })
     rep.assumptions = ["wall-clock hangs are detected only by the shard timeout of the runner (1200 s)",
                        "panics inside third-party crates are visible to the monitor only",
-                       "the inventory of panic sites is a token-level scan (gen/gen_panics.py): macros, unwrap/expect, "
-                       "index expressions, a fixed list of panicking std calls, `+=`/`-=`/`*=` and binary `-`; other "
-                       "overflowing arithmetic (`+`, `*`, casts) and panics inside called library functions are not "
-                       "listed; the reasons in Model/PanicMap.v for sites the models leave out are read off the source "
-                       "by hand and not proved"]
+                       "the pinned inventory of panic sites is a token-level scan (gen/gen_panics.py) counting, per "
+                       "(file, fn), macros by name, unwrap/expect and a fixed list of panicking std calls; index "
+                       "expressions and integer arithmetic are listed as information only and NOT pinned (a new index or "
+                       "overflow panic is left to the models' own sites, the correspondence and the catch_unwind monitor); "
+                       "panics inside called library functions are not listed; the reasons in Model/PanicMap.v for sites "
+                       "the models leave out are read off the source by hand and not proved"]
 
 
 def setup():
